@@ -11,6 +11,7 @@ let runners : (string * (string -> string list -> string list list -> (string ->
   ("C07", Drv_c07.run);
   ("C11", Drv_c11.run);
   ("C05", Drv_c05.run);
+  ("C12", Drv_c12.run);
 ]
 
 (* optional third argument: the harness output for the same cases (for models that need
@@ -33,6 +34,7 @@ let load_impl path =
 let () =
   let prop = Sys.argv.(1) and file = Sys.argv.(2) in
   if Array.length Sys.argv > 3 then load_impl Sys.argv.(3);
+  if prop = "C12" then (Drv_c12.run_impl file (fun s -> print_string s; print_char '\n'); exit 0);
   let run = try Stdlib.List.assoc prop runners with Not_found -> (prerr_endline ("no model runner for " ^ prop); exit 2) in
   let ic = open_in file in
   let out s = print_string s; print_char '\n' in
